@@ -2,6 +2,7 @@
 Conservation monitor: header parsed by an independent reader, samples written = samples announced, size =
 what format / options / header fields dictate; -s N == decoding the input minus its first N bytes;
 standard streams == files (real subprocesses with pipes)."""
+import math
 import os
 import random
 import subprocess
@@ -58,7 +59,9 @@ def build(case):
         return data, args, (cols, rows), skip
     if fmt == "pix":
         side = case["side"]
-        return M.enc_pix(M.rand_pixels(rng, side, side, "random"), side), [], (side, side), 0
+        # (pad: bytes behind the picture, as a file copied off a disk in whole sectors has them - too few to make the
+        # square any larger)
+        return M.enc_pix(M.rand_pixels(rng, side, side, "random"), side) + bytes(rng.randrange(256) for _ in range(case.get("pad", 0))), [], (side, side), 0
     if fmt == "mge":
         pix = M.rand_pixels(rng, 320, 200, case.get("content", "runs"))
         return M.enc_mge(pix, pal, case["rgb"], case["comp"], rng, case.get("preset", "random")), [], (320, 200), 0
@@ -157,7 +160,7 @@ def run_case(case):
     fmt = case["fmt"]
     obs = {"counters": {"decodes": 1}, "viols": [], "sets": {"formats": [fmt]}}
     data, args, size, skip = build(case)
-    obs["key"] = "%s|%s|%s|%s|%s" % (fmt, size, " ".join(args), case.get("content"), str(case.get("preset")) + ("+stretch" if case.get("stretch") else "") + ("+highbits" if case.get("highbits") else "") + ("+esc%d" % case["escape"] if case.get("escape") is not None else "") + ("+ext%s" % case["in_ext"] if case.get("in_ext") is not None else ""))
+    obs["key"] = "%s|%s|%s|%s|%s" % (fmt, size, " ".join(args), case.get("content"), str(case.get("preset")) + ("+stretch" if case.get("stretch") else "") + ("+highbits" if case.get("highbits") else "") + ("+esc%d" % case["escape"] if case.get("escape") is not None else "") + ("+ext%s" % case["in_ext"] if case.get("in_ext") is not None else "") + ("+pad%d" % case["pad"] if case.get("pad") else ""))
     res = D.decode(fmt, data, args, in_ext=case.get("in_ext"))
     cl = observe.classify(fmt, res)
     detail = {"case": case, "args": args, "input_bytes": len(data), "expected_size": size}
@@ -278,6 +281,9 @@ def cases(tier, seed):
         if q and side % 6:
             continue
         yield c(fmt="pix", side=side, pipes=(side == 6))
+        for pad in (1, 3, side // 2 - 1):
+            if pad > 0 and int(math.sqrt((side * side // 2 + pad) * 2)) == side:
+                yield c(fmt="pix", side=side, pad=pad, pipes=(side == 12 and pad == 1))
     for rgb in (True, False):
         for comp in (True, False):
             yield c(fmt="mge", rgb=rgb, comp=comp, pipes=(rgb and comp))
